@@ -243,12 +243,20 @@ Definition catching_up (lg : list logop) (a : nat) (s : pinset) : Prop :=
   exists M, (a <= M <= length lg)%nat /\
     forall c, sget c s = sget c (replay (firstn M lg)) \/ existsb (writes c) (slice a M lg) = true.
 
-(* assumptions about hashicorp/raft, as predicates on a schedule (checked on every observed trace, too) *)
-(* a snapshot is installed only on a replica that is not ahead of it *)
-Definition ev_forward (cl : cluster) (e : mevent) : bool :=
+(* guards of the theorems, as predicates on a schedule. None is an assumption about hashicorp/raft: a snapshot IS installed
+   on a replica that is ahead of it (observed: a reconnected follower that had applied index 7 was sent the leader's snapshot of
+   index 6, three times; FSM.Restore ran each time and entries 7.. were applied again). `restore` therefore moves `applied`
+   to the label of the snapshot in either direction. *)
+(* a snapshot restored on a replica between its FSM.Snapshot and the Persist of that snapshot is not older than the label of
+   the pending one (a special case of ev_atomic below; with it the pending snapshot, though written late, does not LACK an
+   entry below its label) *)
+Definition ev_pinned (cl : cluster) (e : mevent) : bool :=
   match e with
   | MRestore n src k =>
-      match nth_error (snaps (getn src cl)) k with Some s => Nat.leb (applied (getn n cl)) (fst s) | None => true end
+      match pending (getn n cl), nth_error (snaps (getn src cl)) k with
+      | Some l, Some s => Nat.leb l (fst s)
+      | _, _ => true
+      end
   | _ => true
   end.
 (* nothing is applied or restored on a replica between its FSM.Snapshot and the Persist of that snapshot *)
